@@ -19,12 +19,15 @@ PROPS = {
         rule="cases drawn by rapid generators. Function level: 1-3 interfaces (InUse/Deleting/Detaching; secondary/trunk/high-performance) with "
              "bindings (pod, uid recorded / older incarnation / no uid) and idle addresses (Valid/Deleting), 6 pod slots (absent / Running / Pending / "
              "Succeeded / Failed, same or other incarnation), runtime entries of every shape (no entry, empty, initial only, deleted only, both in either "
-             "order, nil values; never equal timestamps), IPv4 / dual / IPv6-only, pool sizes, cloud fault plan, entry point release|trim|gc|sync; "
+             "order, nil values; never equal timestamps), pods that report addresses in their status (their bound ones, or - take-over - idle ones the record "
+             "has not linked to them), IPv4 / dual / IPv6-only, pool sizes, cloud fault plan, entry point release|trim|gc|sync|sync2 (two sync passes with "
+             "drawn pod objects vanishing in between, second pass judged against the owners established by the first); "
              "non-trivial = a trim/gc/sync pass over >= 1 bound address, or a release pass with >= 1 bound address whose pod is gone. "
              "Closed loop: 4-30 (thorough 50) steps over <= 4 (6) pods of create / ADD (optionally reporting the pod IP) / delete object / "
              "phase Succeeded|Failed / DEL (current, superseded or unknown container id) / flush (may fail) / agent GC (PodExist truthful, failing, "
              "stale-true; write may fail) / 5-minute job / reconcile (forced GC, full sync, status-write failure or conflict, cloud faults) / "
-             "agent restart / controller restart, plus bindings that pre-exist the history with or without a recorded UID; two thirds of the steps "
+             "agent restart / controller restart, plus bindings that pre-exist the history with or without a recorded UID and running pods that report "
+             "addresses the record has not linked to them yet (take-over by the first reconcile); two thirds of the steps "
              "follow a pod's natural lifecycle, one third is arbitrary; non-trivial = some reconcile starts with a bound address whose pod object is "
              "gone while its teardown report is still pending, or a pool GC pass runs over >= 1 bound address. distinct = distinct scenario hash",
         assumptions=[
@@ -37,7 +40,11 @@ PROPS = {
             "the allocator's roll-back unbind the other family of a LIVE pod; such records arise only from an IP-stack change on a running node)",
             "a teardown report that rests on the GC's API re-check (PodExist false) is accepted whatever the sandbox does, as the statement says; "
             "PodExist is by name, so it covers every UID that ever lived under that name",
-            "PodUID == \"\" bindings (taken over from a version that did not record UIDs) carry no teardown protocol: reclaim needs only the pod to be gone",
+            "reclaims are judged against the harness's ground truth, not against the UID the record carries: a binding the controller creates or takes "
+            "over during the observed passes belongs to the pod object (UID) that existed in that pass, and its reclaim needs the teardown report of "
+            "THAT uid (or a GC-verified absence) even if the record lost or never got the UID; only bindings that are already in the record without "
+            "a UID before the history begins (taken over from a version that did not record UIDs) carry no teardown protocol - for them reclaim needs "
+            "only the pod to be gone, until the record itself learns the UID",
         ],
         level_text="generated records and generated histories of the two-process protocol run through the real controller and the real node agent "
                    "against an oracle written from the statement; bounded liveness (pod gone and teardown reported => freed by the next fault-free "
